@@ -188,7 +188,7 @@ func genRule(t *rapid.T, inBundle string) RuleSpec {
 	}
 	r.ID = rapid.SampledFrom(idsU).Draw(t, "id")
 	r.Index = rapid.SampledFrom([]int{0, 0, 0, 1, 2, -1}).Draw(t, "index")
-	r.Override = rapid.IntRange(0, 3).Draw(t, "override") == 0
+	r.Override = rapid.IntRange(0, 3).Draw(t, "override") == 3
 	r.Start, r.End = genRange(t)
 	r.Role = rapid.SampledFrom([]string{"voter", "voter", "voter", "voter", "leader", "follower", "learner", "learner"}).Draw(t, "role")
 	r.Count = rapid.IntRange(1, 3).Draw(t, "count")
@@ -205,20 +205,20 @@ func genRule(t *rapid.T, inBundle string) RuleSpec {
 		r.Cons = append(r.Cons, c)
 	}
 	r.Loc = rapid.SampledFrom([][]string{nil, nil, {"zone"}, {"zone", "host"}}).Draw(t, "loc")
-	if rapid.IntRange(0, 9).Draw(t, "iso") == 0 {
+	if rapid.IntRange(0, 9).Draw(t, "iso") == 9 {
 		r.Iso = "zone"
 	}
-	if rapid.IntRange(0, 13).Draw(t, "isBad") == 0 {
+	if rapid.IntRange(0, 13).Draw(t, "isBad") == 13 {
 		r.Bad = rapid.SampledFrom(badKinds).Draw(t, "bad")
 	}
-	r.Upper = rapid.IntRange(0, 7).Draw(t, "upper") == 0
+	r.Upper = rapid.IntRange(0, 7).Draw(t, "upper") == 7
 	return r
 }
 
 func genGroup(t *rapid.T) GroupSpec {
 	return GroupSpec{ID: rapid.SampledFrom(groupsU).Draw(t, "gid"),
 		Index:    rapid.SampledFrom([]int{0, 0, 1, 2, 5, -1}).Draw(t, "gindex"),
-		Override: rapid.IntRange(0, 2).Draw(t, "goverride") == 0}
+		Override: rapid.IntRange(0, 2).Draw(t, "goverride") == 2}
 }
 
 func genBundle(t *rapid.T) BundleSpec {
@@ -242,7 +242,7 @@ func genOp(t *rapid.T) Op {
 		op.Rules = []RuleSpec{genRule(t, "")}
 	case "deleteRule":
 		op.Rules = []RuleSpec{{Group: rapid.SampledFrom(groupsU).Draw(t, "group"), ID: rapid.SampledFrom(idsU).Draw(t, "id")}}
-		if rapid.IntRange(0, 3).Draw(t, "existing") != 0 {
+		if rapid.IntRange(0, 3).Draw(t, "existing") != 3 {
 			op.Pick = rapid.IntRange(0, 1000).Draw(t, "pick")
 		}
 	case "setRules":
@@ -260,7 +260,7 @@ func genOp(t *rapid.T) Op {
 				op.Batch = append(op.Batch, BatchOp{Action: "del", Rule: RuleSpec{Group: rapid.SampledFrom(groupsU).Draw(t, "group"), ID: rapid.SampledFrom(idsU).Draw(t, "id")}})
 			default:
 				op.Batch = append(op.Batch, BatchOp{Action: "delprefix", Rule: RuleSpec{Group: rapid.SampledFrom(groupsU).Draw(t, "group"),
-					ID: rapid.SampledFrom([]string{"r", "r1", "r10", "d", "", "x"}).Draw(t, "prefix")}})
+					ID: rapid.SampledFrom([]string{"r", "r1", "r10", "d", "", "x", "1", "e", "0", "fault"}).Draw(t, "prefix")}})
 			}
 		}
 	case "setGroup":
@@ -290,7 +290,7 @@ func genOp(t *rapid.T) Op {
 		op.Count = rapid.SampledFrom([]int{1, 2, 3, 4, 5, 5, 0}).Draw(t, "newCount")
 		op.Loc = rapid.SampledFrom([][]string{nil, {"zone"}, {"zone", "rack", "host"}}).Draw(t, "newLoc")
 	}
-	if op.Kind != "restart" && rapid.IntRange(0, 7).Draw(t, "abandon") == 0 {
+	if op.Kind != "restart" && rapid.IntRange(0, 7).Draw(t, "abandon") == 7 {
 		op.Abandon = rapid.IntRange(1, 3).Draw(t, "failWrite")
 	}
 	return op
@@ -1613,6 +1613,7 @@ func runCase(c Case) (vkit.Info, error) {
 				return info, fmt.Errorf("%s: rejected with %q, but every key keeps a valid rule set and the rule fields are valid", when, err)
 			}
 			stats.faults++
+			info.Class("fault-attempt")
 			if err := served(m, fmt.Sprintf("%s failed at storage write %d and changed what is observable", when, j)); err != nil {
 				return info, err
 			}
